@@ -30,6 +30,11 @@ def direct(text, r):
     mv = pj.module_vars_ok(text)
     if mv:
         return mv
+    # one explicit export per serialising class: a second BOOST_CLASS_EXPORT of a type redefines boost's guid_defined<T>
+    exports = re.findall(r'^BOOST_CLASS_EXPORT\((.+?)\)\s*$', text, re.M)
+    dup = sorted({e for e in exports if exports.count(e) > 1})
+    if dup:
+        return "BOOST_CLASS_EXPORT(%s) is emitted %d times in one translation unit" % (dup[0], exports.count(dup[0]))
     return None
 
 
@@ -146,6 +151,8 @@ def main(ctx):
                     "generated translation unit is not well-formed",
                     cfg_kw=dict(typedef_same_ns=True, unique_ns=True, c02_safe=True),
                     extra_streams=[(dict(p_template=0.9, max_members=8, max_decls=3), 0.5),
+                                   # serialising classes (some with both hooks, templates instantiated twice under two names)
+                                   (dict(p_serialize=0.7, p_dup_typedef=0.6, p_template=0.5, n_typedefs=3, extra_kinds=['cls', 'cls']), 0.4),
                                    # typedefs placed in an enclosing scope, before the namespace of their template
                                    (dict(typedef_enclosing=0.9, p_template=0.7, n_typedefs=3, extra_kinds=['ns', 'ns', 'cls'], max_depth=3), 0.4)])
     compile_stream(ctx, ctx.scale(16, 400))
